@@ -470,6 +470,10 @@ func (g *xGen) stmtsIn(b *xBody, fs []*xBody, cs []*xClass, n int, depth int, to
 			}
 			// a raise is usually conditional so that the code after it is reachable in other runs
 			th := &xStmt{Kind: "throw", Class: cls, Text: fmt.Sprintf("%s抛%d", b.Name, g.t.Draw(90))}
+			// messages are program-chosen text: percent signs, braces, back-references must survive verbatim
+			if sfx := g.t.Draw(8); sfx >= 4 {
+				th.Text += []string{"：折扣 15%", "：100%d 完成", "：%s%v%!", "：{#1}{}"}[sfx-4]
+			}
 			if g.t.Draw(3) == 0 {
 				out = append(out, th)
 			} else {
@@ -1122,7 +1126,7 @@ func runExc(t *zsim.Tape, cfg *hlib.Config, prop string) *hlib.Outcome {
 			}
 			return fail("wrong-result", "result differs from the reference semantics")
 		}
-	case exp.Raise != nil && !strings.Contains(res.Err, exp.Raise.msg):
+	case exp.Raise != nil && reportedMessage(res.Err) != exp.Raise.msg:
 		agree = false
 		c09fail = func() *hlib.Outcome {
 			return fail("wrong-message", "the uncaught exception's message is not the reported one")
@@ -1162,6 +1166,21 @@ func runExc(t *zsim.Tape, cfg *hlib.Config, prop string) *hlib.Outcome {
 		return out
 	}
 	return out
+}
+
+// reportedMessage extracts the message of the final "运行异常[code]：message" line of an error
+// text (the quoted source lines above it may contain the same text and must not count).
+func reportedMessage(e string) string {
+	i := strings.LastIndex(e, "\n运行异常")
+	if i < 0 {
+		return "\x00no-runtime-error-line"
+	}
+	rest := e[i+1:]
+	j := strings.Index(rest, "：")
+	if j < 0 {
+		return "\x00no-message"
+	}
+	return strings.TrimRight(rest[j+len("："):], "\n")
 }
 
 func dispSymptom(got, exp []string) string {
